@@ -2,6 +2,7 @@ import J5V.Bcl.FmtDiffs
 import J5V.Bcl.DiffProofs
 import J5V.Bcl.ParseFileProofs
 import J5V.Bcl.Utf8Proofs
+import J5V.Bcl.ApplyProofs
 /-!
 # The fragment ranges `FmtDiffs` works on are well-formed (`RawWF`) for every source
 (derived from the parser's position invariants).
@@ -51,5 +52,106 @@ theorem fragEdits_rawWF (cls : Cls) (bytes : List Nat) (frags : List Fragment)
   unfold fragEdits
   exact diffFile_rawWF cls (decodeRunes bytes) _ (lineCount_decodeRunes bytes).symm frags 0 ⟨0, 0⟩ 0
     (Nat.zero_le _) hc
+
+
+/-! ## `Fmt`'s output is the join of the byte-level fragments; every fragment text ends in `\n` -/
+
+theorem encodeRunes_append (a b : List Rune) : encodeRunes (a ++ b) = encodeRunes a ++ encodeRunes b := by
+  simp [encodeRunes]
+
+theorem encodeRunes_nl : encodeRunes [cNL] = [cNL] := by decide
+
+theorem encode_fmtJoin (ds : List FmtFrag) (p : Option Nat) :
+    encodeRunes (fmtJoin ds p) = joinFrags (ds.map FmtFrag.toEdit) p := by
+  induction ds generalizing p with
+  | nil => rfl
+  | cons d ds ih =>
+    simp only [fmtJoin, List.map_cons, joinFrags, encodeRunes_append, ih]
+    congr 1
+    congr 1
+    cases p with
+    | none => rfl
+    | some e =>
+      show encodeRunes (if d.fromLine > e then [cNL] else []) = if d.fromLine > e then [cNL] else []
+      split
+      · exact encodeRunes_nl
+      · rfl
+
+theorem fmtFragment_ends (cls : Cls) (indent : Nat) (f : Fragment) :
+    ∃ x, (fmtFragment cls indent f).1.newText = x ++ [cNL] := by
+  cases f <;> exact ⟨_, rfl⟩
+
+theorem fragEdits_ends (cls : Cls) (frags : List Fragment) :
+    ∀ d ∈ fragEdits cls frags, ∃ x, d.newText = x ++ [cNL] := by
+  unfold fragEdits
+  generalize (0 : Nat) = indent
+  induction frags generalizing indent with
+  | nil => intro d hd; simp [diffFile] at hd
+  | cons f fs ih =>
+    intro d hd
+    unfold diffFile at hd
+    obtain ⟨x, hx⟩ := fmtFragment_ends cls indent f
+    generalize fmtFragment cls indent f = res at hd hx
+    obtain ⟨e, i⟩ := res
+    simp only [List.map_cons, List.mem_cons] at hd
+    rcases hd with rfl | hd
+    · refine ⟨encodeRunes x, ?_⟩
+      show encodeRunes e.newText = _
+      rw [hx, encodeRunes_append, encodeRunes_nl]
+    · exact ih i d hd
+
+/-- a source line is blank: empty or whitespace-only (as runes) -/
+def blankLine (cls : Cls) (l : List Nat) : Bool := (decodeRunes l).all cls.isSpace
+
+theorem blankLine_nil (cls : Cls) : blankLine cls [] = true := rfl
+
+/-- the lines after the last fragment are blank (what is left of the file is white space) -/
+def TrailingBlank (cls : Cls) (bytes : List Nat) : Prop :=
+  ∀ frags, collectFragments cls (decodeRunes bytes) = .ok frags →
+    ∀ l ∈ (splitLines bytes).drop (lastTo (fragEdits cls frags) 0), blankLine cls l = true
+
+/-- applying the edits of `FmtDiffs` to the document gives `Fmt`'s output up to trailing blank lines -/
+theorem fmtDiffs_apply_eq_fmt (cls : Cls) (bytes : List Nat) (ht : TrailingBlank cls bytes)
+    (out : List Nat) (hfmt : fmtSrc cls bytes = .ok out) :
+    ∃ es, fmtDiffsSrc cls bytes = .ok es ∧
+      EqT (blankLine cls) (applyEdits (splitLines bytes) es) out := by
+  unfold fmtSrc fmt at hfmt
+  unfold fmtDiffsSrc
+  cases hc : collectFragments cls (decodeRunes bytes) with
+  | panic s => rw [hc] at hfmt; cases hfmt
+  | err => rw [hc] at hfmt; cases hfmt
+  | ok frags =>
+    rw [hc] at hfmt
+    simp only [] at hfmt
+    have hout : out = joinFrags (fragEdits cls frags) none := by
+      cases hfmt
+      exact encode_fmtJoin _ none
+    obtain ⟨es, he, heq⟩ := apply_eqT (blankLine cls) (blankLine_nil cls) (splitLines bytes)
+      (splitLines_ne_nil bytes) (splitLines_no_nl_mem bytes) (fragEdits cls frags)
+      (fragEdits_rawWF cls bytes frags hc) (fragEdits_ends cls frags) (ht frags hc)
+    simp only [he]
+    exact ⟨es, rfl, by rw [hout]; exact heq⟩
+
+/-- the document the edits are applied to is the source itself -/
+theorem joinWith_splitLines (bs : List Nat) : joinWith [cNL] (splitLines bs) = bs := by
+  induction bs with
+  | nil => rfl
+  | cons r rs ih =>
+    rw [splitLines_cons]
+    cases hs : splitLines rs with
+    | nil => exact absurd hs (splitLines_ne_nil rs)
+    | cons l ls =>
+      rw [hs] at ih
+      simp only []
+      by_cases hr : r = cNL
+      · simp only [hr, if_true]
+        show [] ++ [cNL] ++ joinWith [cNL] (l :: ls) = _
+        rw [ih]; rfl
+      · simp only [hr, if_false]
+        cases ls with
+        | nil => simp only [joinWith] at ih ⊢; rw [ih]
+        | cons l2 ls2 =>
+          simp only [joinWith] at ih ⊢
+          rw [← ih]; simp
 
 end J5V.Bcl
